@@ -21,10 +21,10 @@ EXTENDS Naturals, Sequences, FiniteSets, TLC
 
 CONSTANTS MaxSteps
 
-Decls == {"A", "B", "k", "G", "E", "E2"}
-Files == {"entry", "m1", "m2"}
-Sites == {<<"T", "A">>, <<"T", "B">>, <<"T", "k">>, <<"T", "G">>, <<"A", "B">>, <<"T", "E">>, <<"T", "E2">>}     \* <<user, used>>
-ExportStyles == {"inline", "list", "renamed", "default"}
+Decls == {"A", "B", "k", "G", "E", "E2", "E3"}
+Files == {"entry", "m1", "m2", "m3"}     \* rendered as entry.ts, a/b/t.ts, a/c/t.ts, c/t.ts (nested directories, same base name)
+Sites == {<<"T", "A">>, <<"T", "B">>, <<"T", "k">>, <<"T", "G">>, <<"A", "B">>, <<"T", "E">>, <<"T", "E2">>, <<"T", "E3">>}     \* <<user, used>>
+ExportStyles == {"inline", "list", "renamed", "default", "defaultExpr"}   \* defaultExpr (k only): export default { v: kin } as const
 ImportStyles == {"named", "renamedImport", "namespace", "typeonly", "importtype", "hopnamed", "hopstar", "hopns"}
 Kinds == {"ts", "dts", "tsx"}
 
@@ -41,21 +41,22 @@ CrossFile(s) == FileOfUser(s[1]) # place[s[2]]
 \* ------------------------------------------------------------------ well-formedness (TypeScript's rules for the chosen syntax)
 WellFormed(pl, ex, im, kd, dc) ==
   \* at most one default export per file
-  /\ \A f \in Files : Cardinality({d \in Decls : pl[d] = f /\ ex[d] = "default"}) <= 1
+  /\ \A f \in Files : Cardinality({d \in Decls : pl[d] = f /\ ex[d] \in {"default", "defaultExpr"}}) <= 1
+  /\ \A d \in Decls : ex[d] = "defaultExpr" => d = "k"
   /\ \A s \in Sites :
        LET d == s[2] IN
        (IF s[1] = "T" THEN "entry" ELSE pl[s[1]]) # pl[d] =>
          \* a default export is not re-exported by `export *` and has no name inside a namespace object
-         /\ (ex[d] = "default" => im[s] \in {"named", "renamedImport", "typeonly"})
+         /\ (ex[d] \in {"default", "defaultExpr"} => im[s] \in {"named", "renamedImport", "typeonly"})
          \* `import type` cannot be used for the value k's initialiser, but `typeof k` in a type position is fine
          /\ TRUE
-  \* E2 declared as E in its own file: the hop file must not receive the name E from both files (duplicate / ambiguous export)
-  /\ LET twin == pl["E2"] \notin {"entry", pl["E"]}
+  \* E2 / E3 declared as E in files of their own: the hop file must not receive the name E from two files (duplicate / ambiguous export)
+  /\ LET asE(d) == d = "E" \/ (d = "E2" /\ pl["E2"] \notin {"entry", pl["E"]}) \/ (d = "E3" /\ pl["E3"] \notin {"entry", pl["E"], pl["E2"]})
          cross(t) == (IF t[1] = "T" THEN "entry" ELSE pl[t[1]]) # pl[t[2]]
          starFiles == {pl[t[2]] : t \in {t \in Sites : cross(t) /\ im[t] = "hopstar"}}
          plain(d) == cross(<<"T", d>>) /\ im[<<"T", d>>] \in {"hopnamed", "hopstar"}
          feeds(d) == plain(d) \/ pl[d] \in starFiles
-     IN (twin /\ (plain("E") \/ plain("E2"))) => ~(feeds("E") /\ feeds("E2"))
+     IN \A d1, d2 \in {"E", "E2", "E3"} : (d1 # d2 /\ asE(d1) /\ asE(d2) /\ pl[d1] # pl[d2] /\ (plain(d1) \/ plain(d2))) => ~(feeds(d1) /\ feeds(d2))
   \* the entry file is always a .ts file; a .d.ts file cannot hold a const with an initialiser: k is declared there instead
   /\ kd["entry"] = "ts"
   \* the decoy `type B = number` lives in a file where the name B is neither declared nor bound by an import
@@ -102,6 +103,7 @@ Spec == Init /\ [][Next]_vars
 Resolves(s) == IF broken = s THEN "unresolved" ELSE s[2]
 AllResolve == \A s \in Sites : broken # s => Resolves(s) = s[2]
 \* the name under which E2 is declared in its file
-DeclaredName(d) == IF d = "E2" /\ place["E2"] \notin {"entry", place["E"]} THEN "E" ELSE d
+DeclaredName(d) == IF d = "E2" /\ place["E2"] \notin {"entry", place["E"]} THEN "E"
+                   ELSE IF d = "E3" /\ place["E3"] \notin {"entry", place["E"], place["E2"]} THEN "E" ELSE d
 ExpectedOutcome == IF broken = NoSite THEN "same-as-single-file" ELSE "diagnostic"
 =============================================================================
